@@ -4,7 +4,7 @@
 # and any background run using it stay untouched; equivalent to
 #   git -C /repo apply <patch>; ./vcheck run <check>; git -C /repo checkout -- .
 id=$1; shift
-here=$(cd "$here" && pwd)
+here=$(cd "$(dirname "$0")" && pwd)
 wt=/tmp/sr-$id
 git -C /repo worktree remove --force $wt 2>/dev/null; rm -rf $wt
 git -C /repo worktree add -q --detach $wt HEAD || exit 2
